@@ -259,6 +259,14 @@ func (e *modelEnv) tree(v Value, initial bool, depth int) interface{} {
 				return map[string]interface{}{"k": "opaque", "i": i}
 			}
 		}
+		if b, ok := x.T.Underlying().(*types.Basic); ok && b.Info()&types.IsInteger != 0 && w.identical(x.T, types.Typ[types.Int]) {
+			switch iv := x.V.(type) {
+			case int64:
+				return map[string]interface{}{"k": "int", "v": iv}
+			case *Term:
+				return map[string]interface{}{"k": "int", "v": signExt(e.bv(iv), 64)}
+			}
+		}
 		return map[string]interface{}{"k": "other", "t": reflectName(x.T)}
 	}
 	return map[string]interface{}{"k": "other", "t": fmt.Sprintf("%T", v)}
@@ -339,6 +347,8 @@ func renderTree(t interface{}) string {
 			parts[i] = renderTree(c)
 		}
 		return "[" + strings.Join(parts, ",") + "]"
+	case "int":
+		return fmt.Sprint(m["v"])
 	case "opaque":
 		return fmt.Sprintf("o:%v", m["i"])
 	case "other":
@@ -472,8 +482,17 @@ func (w *Worker) buildFixture(st *State) *Fixture {
 	for _, c := range st.choices {
 		fx.Choices[c.Label] = c.Alt
 	}
+	holeTexts := make([]string, 0, len(fx.Holes))
+	for k := range fx.Holes {
+		holeTexts = append(holeTexts, k)
+	}
+	sort.Strings(holeTexts)
 	for _, ov := range st.outVals {
-		fx.Out[ov.key] = env.render(ov.v)
+		r := env.render(ov.v)
+		for _, k := range holeTexts {
+			r = strings.ReplaceAll(r, k, fx.Holes[k])
+		}
+		fx.Out[ov.key] = r
 	}
 	for _, v := range st.Viol {
 		fx.Viol = append(fx.Viol, v.Label)
